@@ -7,6 +7,7 @@ and sent to the underlying layer (L2CAP).
 """
 import logging
 
+from struct import pack
 from typing import List
 from scapy.layers.bluetooth import ATT_Error_Response, ATT_Exchange_MTU_Request, \
     ATT_Exchange_MTU_Response, ATT_Execute_Write_Request, ATT_Execute_Write_Response, \
@@ -276,12 +277,13 @@ class ATTLayer(Layer):
         :param request: ReadByType request with 128-bit UUID
         :type request: ATT_Read_By_Type_Request_128bit
         """
-        self.send('gatt',
+        # uuid1 and uuid2 are the low and high 64 bits of the little-endian
+        # 128-bit UUID
+        self.send('gatt', GattReadByTypeRequest(
             request.start,
             request.end,
-            request.uuid1,
-            request.uuid2
-        )
+            pack('<QQ', request.uuid1, request.uuid2)
+        ))
 
     def on_read_by_type_response(self, response: GattReadByTypeResponse):
         """Handle read by type response
